@@ -382,3 +382,49 @@ Theorem C15_EndToEnd_e2e_failure_paths_disagree_refuted :
        Ok [[(EndToEnd.bs "BrickColor", VInt32 5)]].
 Proof. exact EndToEnd.e2e_failure_paths_disagree_refuted. Qed.
 
+(* ---- binary write path, the order in which a column's aliases are consulted (Proofs/BinAliasOrder.v): with the legacy
+   names consulted last (the writer since /repo 94a4bf2f) an explicit value of the new property spelled by an ALIAS wins
+   over every legacy spelling the instance carries; with a legacy name in front (possible in the pinned code: one hash
+   set, per-process order) the migrated legacy value was written — the recorded and repaired finding *)
+From RbxVerif Require Import CodecDom BinValues BinFile BinAliasOrder.
+Import List.ListNotations.
+Open Scope string_scope.
+Theorem C15_prop_value_alias_explicit_wins :
+  forall (p : enc_params) (canon : bytes) (pi : prop_info) (i : inst) (op : migop)
+         (is_legacy : bytes -> bool),
+       bytes_eqb canon NAME = false ->
+       pi_migration pi = Some op ->
+       forall (ord : list bytes) (a : bytes) (ex : value),
+       legacy_last is_legacy ord ->
+       bfind canon (i_props i) = None ->
+       In a ord ->
+       is_legacy a = false ->
+       bfind a (i_props i) = Some ex ->
+       (forall (b : bytes) (v : value),
+        In b ord -> is_legacy b = false -> bfind b (i_props i) = Some v -> v = ex) ->
+       vtype ex = mig_out_type op -> prop_value p canon pi ord i = ex.
+Proof. exact prop_value_alias_explicit_wins. Qed.
+
+Theorem C15_prop_value_legacy_first_loses :
+  forall (p : enc_params) (canon : bytes) (pi : prop_info) (i : inst) (op : migop),
+       bytes_eqb canon NAME = false ->
+       pi_migration pi = Some op ->
+       forall (ord : list bytes) (l : bytes) (v w : value),
+       bfind canon (i_props i) = None ->
+       find (BinWrite.carried i) ord = Some l ->
+       bfind l (i_props i) = Some v ->
+       migrate (ep_font p) (ep_brick p) op v = Some w -> prop_value p canon pi ord i = w.
+Proof. exact prop_value_legacy_first_loses. Qed.
+
+Theorem C15_BinAliasOrderExample_ex_explicit_wins :
+  prop_value BinAliasOrderExample.ex_ep (BinAliasOrderExample.B "Color") BinAliasOrderExample.ex_pi
+         [BinAliasOrderExample.B "Color3uint8"; BinAliasOrderExample.B "BrickColor"]
+         BinAliasOrderExample.ex_inst = VColor3uint8 1 2 3.
+Proof. exact BinAliasOrderExample.ex_explicit_wins. Qed.
+
+Theorem C15_BinAliasOrderExample_ex_legacy_first_loses :
+  prop_value BinAliasOrderExample.ex_ep (BinAliasOrderExample.B "Color") BinAliasOrderExample.ex_pi
+         [BinAliasOrderExample.B "BrickColor"; BinAliasOrderExample.B "Color3uint8"]
+         BinAliasOrderExample.ex_inst = VColor3uint8 242 243 243.
+Proof. exact BinAliasOrderExample.ex_legacy_first_loses. Qed.
+
